@@ -74,9 +74,9 @@ def run(chk: Check):
 
     # ---- _iter_runs ---------------------------------------------------------------------------
     ctx = chk.func(REL, "HDS._iter_runs")
-    loops = loops_of(ctx)
+    loops = loops_of(ctx) or list(ctx.loops)
     if not loops:
-        raise AnalysisError("ANCHOR-VANISHED HDS._iter_runs has no while loop")
+        raise AnalysisError("ANCHOR-VANISHED HDS._iter_runs has no loop")
     loop = loops[0]
     sim = _runs_by_evaluation(chk, ctx, loop, env, bat)
     _iter_runs_structure(chk, ctx, loop, env, bat, dom, sim)
